@@ -164,6 +164,10 @@ pub struct Case {
     pub cfg: Cfg,
     pub dest: DestKind,
     pub fault: Fault,
+    /// residue of an earlier pull of the same destination that was killed mid-write: a
+    /// `<dest>.svspart` of this many bytes already exists when the pull starts (None: clean directory)
+    #[serde(default)]
+    pub stale_temp: Option<usize>,
 }
 
 pub const OLD_CONTENT: &[u8] = b"previous-destination-content/0123456789abcdef";
@@ -558,6 +562,10 @@ pub fn run_case(case: &Case, listener: &std::net::TcpListener) -> Result<Obs, St
 fn run_case_on(case: &Case, router: Router, listener: &std::net::TcpListener) -> Result<Obs, String> {
     let dir = CaseDir::new().map_err(|e| format!("case dir: {e}"))?;
     let dest = dir.setup_dest(case.dest).map_err(|e| format!("dest setup: {e}"))?;
+    if let Some(n) = case.stale_temp {
+        let junk: Vec<u8> = (0..n).map(|i| 0xE0 | (i % 13) as u8).collect();
+        std::fs::write(temp_sibling(&dest), junk).map_err(|e| format!("stale temp: {e}"))?;
+    }
     let before = snapshot_dir(&dir.work());
     let (script, _fail, resource) = script_of(&case.fault);
     let server =
@@ -638,8 +646,9 @@ pub fn judge(case: &Case, base: &Baseline, o: &Obs) -> Vec<Bad> {
     let compat = cfg.puller.compatible(cfg.zstd);
     let ctx = || {
         format!(
-            "{p} zstd={} n={} chunk={} trailer={} tamper={:?} reject={} dest={:?} fault={:?}: result={:?}; producer sent {} chunk(s) / {} of {} wire bytes, last={}",
-            cfg.zstd, cfg.n, cfg.chunk, cfg.trailer, cfg.tamper, cfg.reject, case.dest, case.fault, o.res,
+            "{p} zstd={} n={} chunk={} trailer={} tamper={:?} reject={} dest={:?} fault={:?}{}: result={:?}; producer sent {} chunk(s) / {} of {} wire bytes, last={}",
+            cfg.zstd, cfg.n, cfg.chunk, cfg.trailer, cfg.tamper, cfg.reject, case.dest, case.fault,
+            case.stale_temp.map(|n| format!(" stale-temp={n}B")).unwrap_or_default(), o.res,
             o.log.chunks.len(), delivered.len(), base.wire.len(), o.log.last_sent()
         )
     };
@@ -680,6 +689,10 @@ pub fn judge(case: &Case, base: &Baseline, o: &Obs) -> Vec<Bad> {
         let want = expected_file(cfg, base);
         let mut want_dir = o.before.clone();
         want_dir.insert(dest_name.clone(), Entry::File(want.clone()));
+        if case.stale_temp.is_some() {
+            // the residue of the earlier pull is consumed (replaced and renamed away)
+            want_dir.remove(&format!("{DEST_NAME}.svspart"));
+        }
         if dest_ok && o.after.get(&dest_name) != Some(&Entry::File(want.clone())) {
             bad.push(Bad {
                 key: format!("C10:published-content-wrong:{fc}:{p}"),
@@ -731,8 +744,9 @@ pub fn judge(case: &Case, base: &Baseline, o: &Obs) -> Vec<Bad> {
                     show_entry(o.after.get(&dest_name))
                 ),
             });
-        } else if o.after != o.before {
-            // "a failed in-process pull leaves no temporary file"
+        } else if o.after.iter().any(|(k, v)| o.before.get(k) != Some(v)) {
+            // "a failed in-process pull leaves no temporary file" (removing the residue of an
+            // earlier, killed pull is not leaving one)
             let extra: Vec<_> = o.after.keys().filter(|k| !o.before.contains_key(*k)).collect();
             bad.push(Bad {
                 key: format!("C10:temp-left-on-failure:{fc}:{p}"),
@@ -861,7 +875,7 @@ fn faults_for(cfg: &Cfg, base: &Baseline) -> Vec<(DestKind, Fault)> {
 /// (which accepts every tag combination and reads to the final chunk).
 fn baseline_of(cfg: &Cfg, listener: &std::net::TcpListener) -> Result<Baseline, String> {
     let drain = Cfg { puller: Puller::File, trailer: 0, tamper: Tamper::None, reject: false, ..cfg.clone() };
-    let case = Case { cfg: drain, dest: DestKind::Absent, fault: Fault::None };
+    let case = Case { cfg: drain, dest: DestKind::Absent, fault: Fault::None, stale_temp: None };
     let router = make_router_raw(logical(cfg), false, cfg.chunk, cfg.zstd, None);
     let o = run_case_on(&case, router, listener)?;
     if o.hang {
@@ -886,13 +900,28 @@ fn run_part1(ctx: &Ctx, tier: Tier, samples: &Samples) -> (P1Stats, Value) {
     crate::par::for_each_index(cfgs.len() as u64, 1, mk, |l, i| {
         *bases[i as usize].lock().unwrap() = Some(baseline_of(&cfgs[i as usize], l));
     });
-    let mut all: Vec<(usize, DestKind, Fault)> = Vec::new();
+    let mut all: Vec<(usize, DestKind, Fault, Option<usize>)> = Vec::new();
     let mut base_vec: Vec<Baseline> = Vec::new();
     for (i, b) in bases.iter().enumerate() {
         match b.lock().unwrap().take().unwrap() {
             Ok(b) => {
                 for (d, f) in faults_for(&cfgs[i], &b) {
-                    all.push((i, d, f));
+                    all.push((i, d, f, None));
+                }
+                // a fault-free pull into a directory where an earlier, killed pull of the same
+                // destination left its temporary file (part 2 shows such kills leave one): the
+                // published content must still be exactly the new stream's
+                let c = &cfgs[i];
+                if !c.puller.is_value() && c.tamper == Tamper::None && !c.reject && c.puller.compatible(c.zstd) && !(c.puller.has_trailer() && c.n < c.trailer) {
+                    let new_len = expected_file(c, &b).len();
+                    let mut lens = vec![0usize, 1, new_len, new_len + 1, new_len + 7, 3 * new_len + 4096];
+                    lens.sort();
+                    lens.dedup();
+                    for d in [DestKind::Absent, DestKind::Existing] {
+                        for l in &lens {
+                            all.push((i, d, Fault::None, Some(*l)));
+                        }
+                    }
                 }
                 base_vec.push(b);
             }
@@ -901,8 +930,8 @@ fn run_part1(ctx: &Ctx, tier: Tier, samples: &Samples) -> (P1Stats, Value) {
     }
     let stats = Mutex::new(P1Stats::default());
     crate::par::for_each_index(all.len() as u64, 4, mk, |l, i| {
-        let (ci, dest, fault) = &all[i as usize];
-        let case = Case { cfg: cfgs[*ci].clone(), dest: *dest, fault: fault.clone() };
+        let (ci, dest, fault, stale) = &all[i as usize];
+        let case = Case { cfg: cfgs[*ci].clone(), dest: *dest, fault: fault.clone(), stale_temp: *stale };
         let base = &base_vec[*ci];
         let o = match run_case(&case, l) {
             Ok(o) => o,
@@ -927,7 +956,7 @@ fn run_part1(ctx: &Ctx, tier: Tier, samples: &Samples) -> (P1Stats, Value) {
         if o.hang {
             s.hangs.push(format!("{case:?}"));
         }
-        *s.by_fault.entry(case.fault.class().to_string()).or_default() += 1;
+        *s.by_fault.entry(if case.stale_temp.is_some() { "none+stale-temp-of-a-killed-pull".to_string() } else { case.fault.class().to_string() }).or_default() += 1;
         match &o.res {
             r if r.is_ok() => s.ok_rows += 1,
             Res::Panic(_) => {
